@@ -84,8 +84,8 @@ fn h5_checksum_fletcher32(data: &[u8]) -> u32 {
         sum2 = (sum2 & 0xffff) + (sum2 >> 16);
     }
 
-    // Check for odd # of bytes
-    if len.is_odd() {
+    // Check for odd # of bytes (`len` counts the remaining pairs and is zero here)
+    if data.len().is_odd() {
         sum1 += u32::from(u16::from(data[data_idx]) << 8);
         sum2 += sum1;
         sum1 = (sum1 & 0xffff) + (sum1 >> 16);
